@@ -63,7 +63,7 @@ class BaseTransfer(object):
         fine_grid = self.fine.sweep.coll.nodes
         coarse_grid = self.coarse.sweep.coll.nodes
 
-        if len(fine_grid) == len(coarse_grid):
+        if np.array_equal(fine_grid, coarse_grid):
             self.Pcoll: np.ndarray = sp.eye(len(fine_grid)).toarray()
             self.Rcoll: np.ndarray = sp.eye(len(fine_grid)).toarray()
         else:
